@@ -24,8 +24,8 @@ class CodeGenModel:
         self.symbols = {}
         self.st = Obj('xcmp::SymbolTable', {'symbolMap': {}}, 'symtab')
         self.frame = self.I.construct('xcmp::Frame', [('str', '_exit_label')])
-        self.frame.fields['offset'] = IV(64, False, 0, 1 << 20, None, None, ({'F': 1}, 0))
-        self.frame.fields['size'] = IV(64, False, 0, 1 << 20, None, None, ({'S': 1}, 0))
+        self.frame.fields['offset'] = self.I.sym('F', 64, False, 1, 1 << 20)
+        self.frame.fields['size'] = self.I.sym('S', 64, False, 1, 1 << 20)
         self.cb = self.I.construct('xcmp::CodeBuffer', [self.st])
         self.X.fix_containers(self.cb)
         self.cb.fields['currentFrame'] = self.frame
@@ -70,7 +70,18 @@ class CodeGenModel:
                 raise Thrown('null pointer dereference (code generation for a moved-from sub-expression)')
             rn = [k for k, v in self.regs.items() if v == reg.lo][0]
             self.subexprs.append((e, rn))
-            self.cb.fields['instrs'].items.append(Obj('EXPR', {'expr': e, 'reg': rn, 'frame_offset': self.frame.fields['offset']}, 'EXPR[%s->%s]' % (self.X.show(e), rn)))
+            fo = self.frame.fields['offset']
+            # the sub-expression may push D >= 1 temporaries of its own and pops them again: interpret the real Frame methods
+            D = I.sym('D%d' % len(self.subexprs), 32, True, 1, 1 << 10)
+            inc = [m for m in I.idx.record('xcmp::Frame').methods if m.name == 'incOffset'][0]
+            dec = [m for m in I.idx.record('xcmp::Frame').methods if m.name == 'decOffset'][0]
+            I.invoke(inc, self.frame, [D])
+            deep = self.frame.fields['offset']
+            size_after = self.frame.fields['size']
+            I.invoke(dec, self.frame, [D])
+            self.cb.fields['instrs'].items.append(Obj('EXPR', {'expr': e, 'reg': rn, 'frame_offset': fo, 'deepest': deep,
+                                                               'size_lbs': list(size_after.lbs or ([size_after.aff] if size_after.aff else []))},
+                                                      'EXPR[%s->%s]' % (self.X.show(e), rn)))
             return None
         if kind == 'method' and name in ('genStmt',) and self.opaque:
             self.cb.fields['instrs'].items.append(Obj('STMT', {}, 'STMT'))
@@ -170,7 +181,410 @@ def _const_var(X, name, v):
     return n
 
 
+def operand_kinds(M):
+    X = M.X
+    return [('var', lambda n: X.var(n)), ('call', lambda n: X.call('fn_' + n, [X.num(1)])),
+            ('subscript', lambda n: X.sub('arr_' + n, X.var(n))), ('op', lambda n: X.binop('PLUS', X.var(n), X.var(n + "'")))]
+
+
+def gen_binary(idx, op, lkind, rkind, reg='A'):
+    """ExprCodeGen::visitPost on (L op R) after OptimiseExpr, operands of the given kinds; returns (model, node, thrown)."""
+    M = CodeGenModel(idx, reg)
+    for n in ('a', 'b', "a'", "b'"):
+        M.symbol(n, 'VAR', 'f')
+    for n in ('arr_a', 'arr_b'):
+        M.symbol(n, 'ARRAY', '')
+    for n in ('fn_a', 'fn_b'):
+        M.symbol(n, 'FUNC', '')
+    kinds = dict(operand_kinds(M))
+    node = M.X.const_prop(M.X.binop(op, kinds[lkind]('a'), kinds[rkind]('b')))
+    opt = M.X.visitor('xcmp::OptimiseExpr')
+    M.X.visit_post(opt, node)
+    new = opt.fields.get('exprReplacement')
+    target = new if isinstance(new, Obj) else node
+    # descend to the binary operator that is finally generated (~ wrappers are generated by visitPost(UnaryOpExpr&))
+    chain = []
+    while target.cls == 'xcmp::UnaryOpExpr':
+        chain.append(target)
+        target = target.fields['element']
+    vis = M.expr_visitor(reg)
+    thrown = None
+    try:
+        M.X.visit_post(vis, target)
+    except Thrown as e:
+        thrown = e.what
+    return M, target, chain, thrown
+
+
+def rule_tree_intact(rep, idx):
+    rep.rule('R2', 'the syntax tree survives code generation: after ExprCodeGen has generated a binary operator (all 10 operators x operand '
+             'kinds), both operand slots of the node still hold their sub-expressions (they are traversed again by containsCall and the '
+             'memory report), and no moved-from (null) sub-expression is dereferenced', floor=40)
+    rep.rule('R7', 'operator coverage: every binary and unary operator the parser accepts is folded (C07-R1) and, after OptimiseExpr, reaches '
+             'a code-generation case that emits code leaving the result in areg', floor=12)
+    for op in BINOPS:
+        for lk, rk in (('var', 'var'), ('call', 'var'), ('var', 'call'), ('call', 'call'), ('subscript', 'op')):
+            key = '%s:%s,%s' % (op, lk, rk)
+            where = 'xcmp.hpp xcmp::CodeBuffer::ExprCodeGen::visitPost(BinaryOpExpr&)'
+            try:
+                M, node, chain, thrown = gen_binary(idx, op, lk, rk)
+            except NeedSplit as e:
+                rep.undecided('R2', key, 'not uniform: %s' % e, where)
+                continue
+            l, r = node.fields.get('LHS'), node.fields.get('RHS')
+            problems = []
+            if thrown:
+                problems.append('code generation fails: %s at %s' % (thrown, M.I.null_derefs))
+            if not isinstance(l, Obj):
+                problems.append('left operand slot is null after code generation (moved out and never restored)')
+            if not isinstance(r, Obj):
+                problems.append('right operand slot is null after code generation (moved out and never restored)')
+            rep.add('R2', key, not problems, where,
+                    ('%s: ' % M.X.show(node) if not problems else '(%s %s %s): ' % (lk, op, rk)) + ('; '.join(problems) if problems else 'operands intact'))
+            if (lk, rk) == ('var', 'var'):
+                seq = M.instrs()
+                got = result_register(seq)
+                rep.add('R7', 'binary %s' % op, bool(seq) and got == 'A' and not thrown, where,
+                        'generated %s' % [t for t, _ in seq] if seq else 'no code is generated for this operator (falls into the default branch)')
+    for op in UNOPS:
+        M = CodeGenModel(idx, 'A')
+        M.symbol('a', 'VAR', 'f')
+        node = M.X.unop(op, M.X.var('a'))
+        opt = M.X.visitor('xcmp::OptimiseExpr')
+        M.X.visit_post(opt, node)
+        new = opt.fields.get('exprReplacement')
+        target = new if isinstance(new, Obj) else node
+        vis = M.expr_visitor('A')
+        thrown = None
+        try:
+            M.X.visit_post(vis, target)
+        except Thrown as e:
+            thrown = e.what
+        seq = M.instrs()
+        rep.add('R7', 'unary %s' % op, bool(seq) and result_register(seq) == 'A' and not thrown,
+                'xcmp.hpp xcmp::CodeBuffer::ExprCodeGen::visitPost(%s&)' % target.cls.split('::')[-1],
+                'generated %s' % [t for t, _ in seq] if seq else 'no code is generated for this operator')
+
+
+# --------------------------------------------------------------------------------------------------
+# R5 frame balance and R8 spill-slot discipline on code templates
+# --------------------------------------------------------------------------------------------------
+
+def frame_delta(M):
+    off = M.frame.fields['offset']
+    if not isinstance(off, IV) or off.aff is None:
+        return None
+    d = ivinterp.aff_add(off.aff, ({'F': 1}, 0), -1)
+    return d
+
+
+def slot_accesses(M):
+    """Walk a generated template: yields ('store'|'load'|'expr'|'call', slot, frame offset, directive) in order.
+    slot = ('fb', const) for frame-base-relative accesses (offset relative to the frame offset F at entry), ('sp', k) for
+    stack-pointer-relative ones."""
+    seq = M.instrs()
+    out = []
+    base = None      # register that holds the stack pointer: 'A' / 'B'
+    for i, (tk, d) in enumerate(seq):
+        if tk in ('LDAM', 'LDBM') and d.cls == 'hexasm::InstrImm' and isinstance(d.fields.get('immValue'), IV) and d.fields['immValue'].concrete() \
+                and d.fields['immValue'].lo == 1:
+            base = 'A' if tk == 'LDAM' else 'B'
+            continue
+        if tk == 'EXPR':
+            out.append(('expr', None, d.fields['frame_offset'], d))
+            base = None
+            continue
+        if tk in ('BR',) and d.cls == 'hexasm::InstrLabel':
+            lab = d.fields.get('label')
+            out.append(('call', lab, None, d))
+            base = None
+            continue
+        if tk == 'OPR':
+            out.append(('opr', None, None, d))
+            continue
+        if tk in ('STAI_FB', 'LDAI_FB', 'LDBI_FB'):
+            offv = d.fields.get('offset')
+            slot = ('fb', offv.aff if isinstance(offv, IV) else None)
+            out.append(('store' if tk == 'STAI_FB' else 'load', slot, None, d))
+            base = None if tk != 'STAI_FB' else base
+            continue
+        if tk in ('STAI', 'LDAI', 'LDBI') and d.cls == 'hexasm::InstrImm' and base is not None:
+            iv = d.fields.get('immValue')
+            slot = ('sp', iv.lo if isinstance(iv, IV) and iv.concrete() else repr(iv))
+            out.append(('store' if tk == 'STAI' else 'load', slot, None, d))
+            if tk != 'STAI':
+                base = None
+            continue
+        if tk in DEST:
+            if base == DEST[tk]:
+                base = None
+    return out
+
+
+def check_spills(M):
+    """A value read back from the stack after an opaque sub-expression was evaluated must sit in a frame slot that was reserved
+    (frame offset advanced past it) while that sub-expression ran."""
+    problems = []
+    acc = slot_accesses(M)
+    stores = {}      # slot -> index of last store
+    for i, (kind, slot, foff, d) in enumerate(acc):
+        if kind == 'store':
+            stores[repr(slot)] = i
+        elif kind == 'load':
+            j = stores.get(repr(slot))
+            between = acc[(j + 1 if j is not None else 0):i]
+            exprs = [x for x in between if x[0] == 'expr']
+            if j is None:
+                # a slot this template did not write: only the callee's return slot right after the call is legitimate
+                last_call = max([k for k, x in enumerate(acc[:i]) if x[0] in ('call', 'opr')] or [-1])
+                if any(x[0] == 'expr' for x in acc[last_call + 1:i]) or last_call < 0 and exprs:
+                    problems.append('%s is read after a sub-expression was evaluated although this code never stored it (%s)' % (slot, d.name))
+                continue
+            if slot[0] == 'fb' and slot[1] is not None:
+                for x in exprs:
+                    fo = x[2]
+                    if not (isinstance(fo, IV) and fo.aff is not None):
+                        problems.append('frame offset unknown while %s is evaluated' % x[3].name)
+                        continue
+                    # slot index s = -(offset) ; reserved iff frame offset during the sub-expression > s
+                    s_aff = ({k: -c for k, c in slot[1][0].items()}, -slot[1][1])
+                    dlt = ivinterp.aff_add(fo.aff, s_aff, -1)
+                    if dlt[0] or dlt[1] <= 0:
+                        problems.append('the value saved in frame slot %s is not reserved while %s is evaluated (frame offset %s): the '
+                                        'sub-expression\'s own temporaries may overwrite it' % (ivinterp.aff_str(s_aff), x[3].name, ivinterp.aff_str(fo.aff)))
+            elif exprs:
+                problems.append('%s is kept in an unreserved stack-pointer-relative slot across %s' % (slot, exprs[0][3].name))
+    # outgoing actuals: a word stored at sp[k] must survive every sub-expression evaluated before the call is made
+    for i, (kind, slot, foff, d) in enumerate(acc):
+        if kind != 'store' or slot[0] != 'sp' or not isinstance(slot[1], int):
+            continue
+        for x in acc[i + 1:]:
+            if x[0] in ('call', 'opr'):
+                break
+            if x[0] == 'store' and repr(x[1]) == repr(slot):
+                break
+            if x[0] == 'expr':
+                deep = x[3].fields.get('deepest')
+                lbs = x[3].fields.get('size_lbs') or []
+                ok = False
+                if isinstance(deep, IV) and deep.aff is not None:
+                    for lb in lbs:
+                        if lb is None:
+                            continue
+                        dl = ivinterp.aff_add(lb, deep.aff, -1)
+                        if not dl[0] and dl[1] >= slot[1] + 1:
+                            ok = True
+                if not ok:
+                    problems.append('the outgoing actual stored at sp[%d] is not protected while %s is evaluated: the frame is only '
+                                    'guaranteed to be as large as that sub-expression\'s own deepest temporary, which then occupies the same word'
+                                    % (slot[1], x[3].name))
+                    break
+    return problems
+
+
+def rule_frames(rep, idx):
+    rep.rule('R5', 'frame-offset balance: the operand scheduler, assignments through subscripts and the three call sequences leave the '
+             'compile-time frame offset exactly as they found it, for every operand/actual kind', floor=20)
+    rep.rule('R8', 'spill-slot discipline: in every generated template a value that is read back from the stack after a sub-expression '
+             'has been evaluated was saved in a frame slot that stays reserved (frame offset advanced past it) during that evaluation', floor=20)
+    where_b = 'xcmp.hpp xcmp::CodeBuffer::ExprCodeGen::genBinopOperands'
+    for op in ('PLUS', 'MINUS', 'EQ', 'LS'):
+        for lk, rk in itertools.product(('var', 'call', 'subscript', 'op'), repeat=2):
+            key = '%s:%s,%s' % (op, lk, rk)
+            try:
+                M, node, chain, thrown = gen_binary(idx, op, lk, rk)
+            except NeedSplit as e:
+                rep.undecided('R5', key, 'not uniform: %s' % e, where_b)
+                continue
+            if thrown:
+                rep.add('R5', key, False, where_b, 'code generation fails: %s' % thrown)
+                continue
+            d = frame_delta(M)
+            rep.add('R5', key, d is not None and not d[0] and d[1] == 0, where_b,
+                    'frame offset after the expression is entry %+d' % d[1] if d is not None and not d[0] else 'frame offset is not entry + constant')
+            pr = check_spills(M)
+            rep.add('R8', key, not pr, where_b, '; '.join(pr) if pr else 'template %s' % [t for t, _ in M.instrs()])
+    # calls: actual lists of mixed kinds
+    act_kinds = ('var', 'call', 'op')
+    for callkind, mk in (('func', lambda M, a: M.X.call('fn_a', a)), ('proc', lambda M, a: M.X.call('pr_a', a)), ('syscall', lambda M, a: M.X.syscall(1, a))):
+        for kinds in itertools.chain(itertools.product(act_kinds, repeat=1), itertools.product(act_kinds, repeat=2), [('op', 'call', 'var'), ('call', 'op', 'call')]):
+            M = CodeGenModel(idx, 'A')
+            for n in ('a', 'b', 'c', "a'", "b'", "c'"):
+                M.symbol(n, 'VAR', 'f')
+            M.symbol('fn_a', 'FUNC', '')
+            M.symbol('fn_b', 'FUNC', '')
+            M.symbol('fn_c', 'FUNC', '')
+            M.symbol('pr_a', 'PROC', '')
+            ok_ = dict(operand_kinds(M))
+            actuals = [ok_[k](n) for k, n in zip(kinds, ('a', 'b', 'c'))]
+            node = mk(M, actuals)
+            key = '%s(%s)' % (callkind, ','.join(kinds))
+            where = 'xcmp.hpp xcmp::CodeBuffer::gen%sCall / genCallActuals / loadActuals' % {'func': 'Func', 'proc': 'Proc', 'syscall': 'Sys'}[callkind]
+            vis = M.expr_visitor('A')
+            try:
+                M.X.visit_post(vis, node)
+            except NeedSplit as e:
+                rep.undecided('R5', key, 'not uniform: %s' % e, where)
+                continue
+            except Thrown as e:
+                rep.add('R5', key, False, where, 'code generation fails: %s' % e.what)
+                continue
+            d = frame_delta(M)
+            rep.add('R5', key, d is not None and not d[0] and d[1] == 0, where,
+                    'frame offset after the call is entry %+d' % d[1] if d is not None and not d[0] else 'frame offset is not entry + constant')
+            pr = check_spills(M)
+            rep.add('R8', key, not pr, where, '; '.join(pr) if pr else 'template %s' % [t for t, _ in M.instrs()])
+    # assignment through a subscript
+    for rk in ('var', 'call', 'op'):
+        M = CodeGenModel(idx, 'A')
+        for n in ('a', 'b', "a'", "b'", 'i'):
+            M.symbol(n, 'VAR', 'f')
+        M.symbol('arr', 'ARRAY', '')
+        M.symbol('fn_b', 'FUNC', '')
+        ok_ = dict(operand_kinds(M))
+        st = M.I.construct('xcmp::AssStatement', [None, M.X.sub('arr', M.X.var('i')), ok_[rk]('b')])
+        vis = M.stmt_visitor()
+        key = 'arr[i] := %s' % rk
+        where = 'xcmp.hpp xcmp::CodeBuffer::StmtCodeGen::visitPost(AssStatement&)'
+        try:
+            M.X.visit_post(vis, st)
+        except (NeedSplit, Thrown) as e:
+            rep.add('R5', key, False, where, 'code generation fails / not uniform: %s' % e)
+            continue
+        d = frame_delta(M)
+        rep.add('R5', key, d is not None and not d[0] and d[1] == 0, where,
+                'frame offset after the statement is entry %+d' % d[1] if d is not None and not d[0] else 'frame offset is not entry + constant')
+        pr = check_spills(M)
+        rep.add('R8', key, not pr, where, '; '.join(pr) if pr else 'template %s' % [t for t, _ in M.instrs()])
+
+
+# --------------------------------------------------------------------------------------------------
+# R4 label namespace, R6 strings
+# --------------------------------------------------------------------------------------------------
+
+def rule_labels(rep, idx):
+    rep.rule('R4', 'generated-label namespace: every label the compiler invents (loop/branch labels, entry label, exit label, constant pool, '
+             'string pool) starts with a character that cannot start an X identifier, so no procedure name can collide with it', floor=5)
+    # what can start an identifier?
+    rt = idx.func('xcmp::Lexer::readToken')
+    alpha = any(callee_of(c)[1] == 'isalpha' for c in cast.calls_in(rt.body))
+    if not alpha:
+        raise AnalysisBroken('xcmp::Lexer::readToken no longer starts identifiers with std::isalpha: re-derive the identifier-start set')
+    lits = []
+    for f in idx.all_funcs():
+        if f.body is None or not f.qname.startswith('xcmp::'):
+            continue
+        if f.qname == 'xcmp::CodeBuffer::getLabel':
+            for x in walk(f.body):
+                if x['kind'] == 'StringLiteral':
+                    lits.append((cast.string_lit(x), pos(x), f.qname, 'prefix of generated labels'))
+        for c in cast.calls_in(f.body):
+            kind, name, did, obj = callee_of(c)
+            if name in ('genLabel', 'genBR', 'genBRZ', 'genBRN', 'genLDAP', 'genDataLabel', 'genLDAC', 'genLDBC', 'genLDAM', 'genLDBM', 'genSTAM'):
+                a = cast.call_args(c)
+                if a and any(x['kind'] == 'StringLiteral' for x in walk(a[0])) and 'basic_string' in (dqt(a[0]) + qt(a[0])):
+                    for x in walk(a[0]):
+                        if x['kind'] == 'StringLiteral':
+                            s_ = cast.string_lit(x)
+                            if s_ != 'main':
+                                lits.append((s_, pos(x), f.qname, 'argument of %s' % name))
+        # format strings whose result names a data label
+        if f.qname in ('xcmp::CodeBuffer::genConstPool', 'xcmp::CodeBuffer::genString'):
+            for (w_, lit, need, got) in cast.format_arity(idx, f):
+                lits.append((lit, w_, f.qname, 'format of pool labels'))
+    seen = set()
+    for lit, where, fn, role in lits:
+        if (lit, fn) in seen:
+            continue
+        seen.add((lit, fn))
+        ok = bool(lit) and not lit[0].isalpha()
+        rep.add('R4', '%s:%r' % (fn, lit), ok, where + ' ' + fn,
+                '%s %r %s' % (role, lit, 'cannot be an identifier' if ok else 'can also be the name of a user procedure (e.g. proc %s0() / proc %s())' % (lit, lit)),
+                nontrivial=False)
+
+
+def rule_strings(rep, idx):
+    rep.rule('R6', 'string literals: genString emits a label followed by ceil((n+1)/4) data words holding the length byte and the characters '
+             'little-endian (at least one word, also for the empty string) and loads the label\'s address into the requested register', floor=12)
+    f = idx.func('xcmp::CodeBuffer::genString')
+    rep.analysed(f.sig)
+    for text in ('', 'a', 'ab', 'abc', 'abcd', 'hello w'):
+        for reg in ('A', 'B'):
+            M = CodeGenModel(idx, reg)
+            try:
+                M.I.invoke(f, M.cb, [const(32, True, M.regs[reg]), ('str', text)])
+            except (NeedSplit, Thrown) as e:
+                rep.add('R6', '%r into %sreg' % (text, reg.lower()), False, pos(f.node) + ' xcmp::CodeBuffer::genString', 'fails: %s' % e)
+                continue
+            data = M.data()
+            words = [d for d in data if d.cls == 'hexasm::Data']
+            labels = [d for d in data if d.cls == 'hexasm::Label']
+            raw = bytes([len(text) & 0xFF]) + text.encode('latin1')
+            raw += b'\0' * ((-len(raw)) % 4)
+            want = [int.from_bytes(raw[i:i + 4], 'little') for i in range(0, len(raw), 4)]
+            got = [(d.fields['value'].lo & 0xFFFFFFFF) if isinstance(d.fields.get('value'), IV) and d.fields['value'].concrete() else None for d in words]
+            problems = []
+            if len(labels) != 1 or (data and data[0] is not labels[0]):
+                problems.append('%d labels' % len(labels))
+            if got != want:
+                problems.append('data words %s, expected %s' % ([hex(x) if x is not None else '?' for x in got], [hex(x) for x in want]))
+            seq = M.instrs()
+            if result_register(seq) != reg:
+                problems.append('address loaded into %s' % result_register(seq))
+            if M.I.ub:
+                problems.append('UB %s' % M.I.ub)
+            rep.add('R6', '%r into %sreg' % (text, reg.lower()), not problems, pos(f.node) + ' xcmp::CodeBuffer::genString',
+                    '; '.join(problems) if problems else '%d word(s)' % len(words))
+
+
 def run(rep, tier):
     idx = cast.load('xcmp.cpp')
     rep.analysed(unit='xcmp.cpp')
+    rep.trusted = ['clang 14 AST', 'interval/affine interpreter over abstract AST objects built by the real constructors (hexsa/xmodel.py); '
+                   'code for sub-expressions is an opaque step that leaves its value in the requested register and may use any stack word '
+                   'at or above the current frame offset']
+    rep.assumptions = ['these are necessary conditions: equivalence of source and emitted code for every program is NOT decided (DESIGN.md)']
     rule_register_discipline(rep, idx)
+    rule_tree_intact(rep, idx)
+    from . import c05
+    sub = _Sub(rep)
+    c05.rule_classification(sub, idx)
+    rule_labels(rep, idx)
+    rule_frames(rep, idx)
+    rule_strings(rep, idx)
+    # the expression optimiser preserves the X meaning (import of C07's rewrite-identity and fold rules)
+    from . import c07
+    c07.rule_rewrite(_Rename(rep, {'R2': 'R9'}), idx)
+    c07.rule_fold(_Rename(rep, {'R1': 'R10'}), idx)
+
+
+class _Rename:
+    def __init__(self, rep, m):
+        self.rep = rep
+        self.m = m
+
+    def rule(self, rid, text, floor=0, floor_reason=''):
+        self.rep.rule(self.m.get(rid, rid), text, floor, floor_reason)
+
+    def add(self, rule, key, ok, where='', detail='', nontrivial=True, data=None):
+        return self.rep.add(self.m.get(rule, rule), key, ok, where, detail, nontrivial, data)
+
+    def undecided(self, rule, key, why, where=''):
+        return self.rep.undecided(self.m.get(rule, rule), key, why, where)
+
+    def __getattr__(self, n):
+        return getattr(self.rep, n)
+
+
+class _Sub:
+    def __init__(self, rep):
+        self.rep = rep
+
+    def rule(self, rid, text, floor=0, floor_reason=''):
+        self.rep.rule('R3', text, floor, floor_reason)
+
+    def add(self, rule, key, ok, where='', detail='', nontrivial=True, data=None):
+        return self.rep.add('R3', key, ok, where, detail, nontrivial, data)
+
+    def __getattr__(self, n):
+        return getattr(self.rep, n)
